@@ -321,7 +321,7 @@ func TestVerifC12(t *testing.T) {
 	}
 	defer sysutil.UseCgroupsV2.Store(false)
 
-	n := h.N(8000, 100000)
+	n := h.N(8000, 60000)
 	for idx := 0; idx < n; idx++ {
 		r := h.Begin(idx)
 		if r == nil {
